@@ -1907,6 +1907,18 @@ def resolve_ts(name, names, scratch):
             for f in sorted(src.glob("train_*.txt")):
                 lines = f.read_text().splitlines()
                 (d / f.name).write_text("\n".join(lines[1::3]) + "\n")
+    elif which == "neg":
+        # every third sample; the worst-rated samples are labelled
+        # "-1 / invalid" (documented manual rating; they get no weight)
+        d = scratch / "ts_neg"
+        if not d.exists():
+            d.mkdir()
+            for f in sorted(src.glob("train_*.txt")):
+                lines = f.read_text().splitlines()[::3]
+                if f.name == "train_response.txt":
+                    lines = ["-1.000000000000000000e+00"
+                             if float(x) == 0 else x for x in lines]
+                (d / f.name).write_text("\n".join(lines) + "\n")
     elif which == "inf":
         # every third sample; some entries of two features are infinite
         # (features whose finite values are far below the largest value of
@@ -1971,7 +1983,7 @@ def gen_rate_kw(rng):
             + REGRESSORS)
     ts = rng.choice(["zef18", "zef18", "zef18", "dir:copy", "dir:small",
                      "mem:copy", "mem:small", "dir:zef18", "held:small",
-                     "held:copy", "dir:inf"])
+                     "held:copy", "dir:inf", "dir:neg", "mem:neg"])
     if rng.random() < 0.35:
         k = rng.randint(2, 6)
         names = rng.sample(CON_FEATURES, k)
@@ -2030,6 +2042,14 @@ class CurveEngineC09:
                  "fmt-jpk-fd_single_bad_bead10_2017-04-27.jpk-force",
                  "fmt-jpk-fd_single_bad_bead46_2017-04-20.jpk-force",
                  "fmt-jpk-fd_single_bad_bead7_2017-04-27.jpk-force"])}
+        pullin = rng.random() < 0.08
+        if pullin:
+            # force that decreases after contact: the fit succeeds, several
+            # features are +inf
+            cfg = {"kind": "synthetic", "model": "hertz_para",
+                   "n": rng.choice([700, 900]), "E": rng.choice(
+                       [-3000.0, -300.0]), "cp": 0.0, "baseline": 0.0,
+                   "noise": 0.001, "seed": rng.randrange(1, 1000)}
         swarm = {"faults": rng.random() < 0.4,
                  "invalid": rng.random() < 0.4,
                  "few_configs": rng.random() < 0.5}
@@ -2197,6 +2217,19 @@ class CurveEngineC09:
                     kw, ts = rng.choice(pool)
                     ops.append({"op": "rate", "kw": copy.deepcopy(kw),
                                 "ts": ts})
+        if pullin:
+            inf_feats = ["feat_con_apr_sum", "feat_con_idt_sum",
+                         "feat_con_idt_sum_75perc", "feat_con_idt_spike_area",
+                         "feat_con_idt_maxima_75perc"]
+            ops[0:0] = [
+                {"op": "prep", "route": "apply", "options": None,
+                 "steps": ["compute_tip_position", "correct_force_offset",
+                           "correct_tip_offset"]},
+                {"op": "fit", "kw": {}},
+                {"op": "rate", "ts": "zef18", "kw": {
+                    "regressor": rng.choice(["Extra Trees", "Decision Tree",
+                                             "SVR (RBF kernel)"]),
+                    "names": rng.sample(inf_feats, rng.choice([1, 2, 3]))}}]
         if rng.random() < 0.12:
             # a state reachable by a setting edit: an axis that does not
             # exist is stored (the fit is refused), then the curve is rated
